@@ -73,10 +73,17 @@ def _packets(protos, srcs, dsts, sports, dports):
     return out
 
 
+_ADDR4, _PORT3 = [A1, A2, B1, OUT], [22, 80, 53]
 PACKET_DOMAINS = {
-    "cover": _packets(["tcp", "udp", "icmp"], [A1, A2, B1, OUT], [A1, A2, B1, OUT], [22, 80, 53], [22, 80, 53]),
+    # covering packet domain: every combination of the values that tell the covering rule fields apart
+    "cover": _packets(["tcp", "udp", "icmp"], _ADDR4, _ADDR4, _PORT3, _PORT3),
+    # half of it (address pairs and port pairs on a checkerboard): used when the same single-rule list has already been
+    # probed with the full domain through another door, to confirm the verdicts behind a request-/scenario-made rule
+    "cover_diag": [p for p in _packets(["tcp", "udp", "icmp"], _ADDR4, _ADDR4, _PORT3, _PORT3)
+                   if (_ADDR4.index(p[1]) + _ADDR4.index(p[2])) % 2 == 0
+                   and (p[3] is None or (_PORT3.index(p[3]) + _PORT3.index(p[4])) % 3 == 0)],
     "reduced_q": _packets(["tcp", "udp"], [A1, A2, OUT], [B1, OUT], [22], [80, 22]),
-    "reduced": _packets(["tcp", "udp", "icmp"], [A1, A2, B1, OUT], [B1, B2, OUT], [22, 53], [80, 53]),
+    "reduced": _packets(["tcp", "udp", "icmp"], [A1, A2, B1, OUT], [B1, B2, OUT], [22], [80, 53]),
 }
 
 
@@ -535,7 +542,7 @@ def reduced_rules(tier: str) -> List[List]:
     else:
         it = itertools.product(["PERMIT", "DENY"], [None, "tcp", "icmp"],
                                [(None, None), (A1, None), (A1, "0.0.0.255"), (B1, "0.0.255.255")],
-                               [(None, None), (B1, None), (B1, "0.0.0.255")], [None, 22], [None, 80])
+                               [(None, None), (B1, None), (B1, "0.0.0.255")], [None], [None, 80])
     return [[a, p, s[0], s[1], d[0], d[1], sp, dp] for a, p, s, d, sp, dp in it]
 
 
@@ -557,6 +564,9 @@ def single_rule_cases(tier: str):
         bi = b // block
         todo = [doors[bi % 4]] if tier == "quick" else ["py-standalone", "req", "cfg"] + (["py-game"] if bi % 4 == 3 else [])
         for door in todo:
+            # thorough probes every rule with the full packet domain through the Python API and with the checkerboard
+            # half through the other doors; quick probes every rule once, with the full domain
+            dom = "cover" if tier == "quick" or door == "py-standalone" else "cover_diag"
             if door == "cfg":
                 for k in range(0, len(chunk), 7):
                     part = chunk[k:k + 7]
@@ -564,7 +574,7 @@ def single_rule_cases(tier: str):
                     for j, r in enumerate(part):
                         name = GAME_LISTS[(j + bi) % 7]
                         init[name] = [[POS_ROT[(bi + j) % 4] if name != "router" else POS_ROT[(bi + j) % 3], r]]
-                        ops.append(["probe_all", name, "cover"])
+                        ops.append(["probe_all", name, dom])
                     yield {"init": init, "ops": ops, "kind": "single/cfg"}
                 continue
             ops = []
@@ -578,7 +588,7 @@ def single_rule_cases(tier: str):
                 ops += [["remove", name, via, 22], ["remove", name, via, 23]]
             for j, r in enumerate(chunk):
                 pos = POS_ROT[(bi + j) % 4]
-                ops += [["add", name, via, pos, r], ["probe_all", name, "cover"], ["remove", name, via, pos]]
+                ops += [["add", name, via, pos, r], ["probe_all", name, dom], ["remove", name, via, pos]]
             yield {"ops": ops, "kind": f"single/{door}"}
 
 
@@ -743,12 +753,12 @@ def worker(ctx: Ctx):
     nr, n2 = len(cover_rules(ctx.tier)), len(reduced_rules(ctx.tier))
     ctx.extra["exhaustive_domain"] = (
         f"single-rule lists: all {nr} rules of the covering field domain x {len(PACKET_DOMAINS['cover'])} packets "
-        f"({'each rule through one of 4 doors' if quick else 'each rule through py, request and scenario doors'}); "
+        f"({'each rule through one of 4 doors' if quick else 'each rule through the Python API, and again through the request and scenario doors x ' + str(len(PACKET_DOMAINS['cover_diag'])) + ' packets'}); "
         f"two-rule lists: all {n2}x{n2} ordered pairs of the reduced domain, second rule above and below the first, x "
         f"{len(PACKET_DOMAINS['reduced_q' if quick else 'reduced'])} packets through py/request doors"
         f"{'' if quick else ', and all ordered pairs through the scenario door'}"
     )
-    total = 2000 if quick else 64000
+    total = 2000 if quick else 32000
     n = max(1, total // ctx.n)
     n_falsy = max(1, n // 6)
     hyp_run(ctx, random_case(24, falsy=False), run, n - n_falsy, sub=0)
